@@ -427,6 +427,7 @@ class List(list, base.Symbolic, pg_typing.CustomTyping):
         # Detach old value from object tree.
         if isinstance(old_value, base.TopologyAware):
           old_value.sym_setparent(None)
+          old_value.sym_setpath(utils.KeyPath())
     else:
       super().append(new_value)
     return base.FieldUpdate(
@@ -594,6 +595,7 @@ class List(list, base.Symbolic, pg_typing.CustomTyping):
     # Detach the removed value from object tree.
     if isinstance(old_value, base.TopologyAware):
       old_value.sym_setparent(None)
+      old_value.sym_setpath(utils.KeyPath())
 
     if flags.is_change_notification_enabled():
       self._notify_field_updates([
@@ -731,6 +733,7 @@ class List(list, base.Symbolic, pg_typing.CustomTyping):
     for value in removed:
       if isinstance(value, base.TopologyAware):
         value.sym_setparent(None)
+        value.sym_setpath(utils.KeyPath())
 
   def sort(self, *, key=None, reverse=False) -> None:
     """Sorts the items of the list in place.."""
